@@ -48,6 +48,9 @@ def _specs(tier: str):
             ('fanout', [('P1', shapes['fanout'])], 1, 1),
             ('custom', [('P1', [E(A(a, 0, 'x'), b), E(A(a), c)])], 1, 1),
             ('customopt', [('P1', shapes['customopt'])], 1, 1),
+            ('subfailopt', [('P1', [E(A(a, 0, 'submit-failed', True), b),
+                                    E(A(a, 0, 'succeeded', True), c)])],
+             1, 1),
             ('prev', [('P1', [E(A(a, -1), a), E(A(a), b)])], 2, 1),
             ('chain2-x2', [('P1', shapes['chain2'])], 1, 2),
         ]
